@@ -425,6 +425,19 @@ class Gen:
                     t = rule(d['id'], name, sign=list(d['sign']))
                     rules.insert(rules.index(d) + rng.choice([0, 1]), t)
                     self.pats[d['id']] = self.pats.get(d['id'], set()) | {i['p'] for i in name if i['k'] == 'p'}
+            if rng.random() < self.dual:
+                # the same situation in its plainest form, next to whatever the schema has: one packet name satisfies
+                # two definitions (or two rules) with IDENTICAL signer lists and different bindings; some keys are
+                # allowed by the first only, some by the second only (check is an OR over packet nodes)
+                l1, l2, l3 = rng.choice(self.lits), rng.choice(self.lits), rng.choice(self.lits)
+                pa, qa = rng.sample(self.named, 2)
+                two = rng.random() < 0.5
+                gk = [rule('#gk', [V(l3), P(qa), P(pa)])]
+                if rng.random() < 0.4:
+                    gk.append(rule('#gk2', [V(l3), P(qa), P(pa), P('_')][:rng.choice([3, 4])]))
+                sg = [r['id'] for r in gk]
+                rules += gk + [rule('#gd', [V(l1), P(pa), P('_')], sign=sg),
+                               rule('#gw' if two else '#gd', [P(qa), V(l2), P(rng.choice(['_', qa, 'seq']))], sign=sg)]
             if rng.random() < self.force_twin:
                 # make sure there is a twin definition whose signer the earlier definitions do not have
                 short = lambda q: self.minlen.get(q, 9) <= 3
